@@ -358,6 +358,15 @@ func enumC10(tier string, seed uint64) []EnumResult {
 		{},
 		{reflect.TypeOf(0), reflect.TypeOf("")},
 		{reflect.TypeOf(rawMsg)},
+		// typed containers of Binary: the placeholder sits inside a map / slice / struct the handler declares
+		{reflect.TypeOf(map[string]sio.Binary{})},
+		{reflect.TypeOf(map[string]*sio.Binary{})},
+		{reflect.TypeOf([]sio.Binary{})},
+		{reflect.TypeOf(&c10Struct{})},
+		{reflect.TypeOf(map[string]c10Struct{})},
+		{reflect.TypeOf([]any{})},
+		{reflect.TypeOf([]map[string]any{})},
+		{reflect.TypeOf(map[string][]sio.Binary{})},
 	}
 	seen := map[string]bool{}
 	try := func(frames [][]byte) {
@@ -415,7 +424,15 @@ func enumC10(tier string, seed uint64) []EnumResult {
 	}
 	rec(0)
 	// the grammar-aware corpus through the same funnel, with attachments
-	for _, c := range c10Corpus {
+	valid := []string{
+		`51-["bin",{"data":{"_placeholder":true,"num":0}}]`,
+		`51-["bin",{"data":{"num":0,"_placeholder":true}}]`,
+		`51-["bin",[{"_placeholder":true,"num":0}]]`,
+		`51-["bin",{"a":[{"_placeholder":true,"num":0}]}]`,
+		`51-["bin",{"a":{"data":{"_placeholder":true,"num":0},"n":1}}]`,
+		`52-["bin",{"data":{"_placeholder":true,"num":1},"x":{"_placeholder":true,"num":0}}]`,
+	}
+	for _, c := range append(append([]string(nil), c10Corpus...), valid...) {
 		try([][]byte{[]byte(c)})
 		try([][]byte{[]byte(c), {9, 9}})
 		try([][]byte{[]byte(c), {9, 9}, {}})
